@@ -455,13 +455,13 @@ class CFG(object):
             return True
         return b.id not in self.reach(self.entry, a_set, labels_excluded)
 
-    def must_pass(self, src, dst_set, via_set, labels_excluded=()):
+    def must_pass(self, src, dst_set, via_set, labels_excluded=(), edges_excluded=()):
         """Every path src -> any dst passes through via_set."""
         if isinstance(dst_set, Node):
             dst_set = [dst_set]
         if isinstance(via_set, Node):
             via_set = [via_set]
-        r = self.reach(src, via_set, labels_excluded)
+        r = self.reach(src, via_set, labels_excluded, edges_excluded=edges_excluded)
         return not any(d.id in r for d in dst_set)
 
     def path(self, src, dst, avoid=(), labels_excluded=(), edges_excluded=()):
